@@ -36,10 +36,12 @@ LEAN_KEYWORDS = {"from", "at", "end", "in", "fun", "let", "do", "then", "else", 
 
 
 def lname(name: str) -> str:
-    name = name.lstrip("_") or "u"
-    if name in LEAN_KEYWORDS:
-        name = name + "'"
-    return name
+    stripped = name.lstrip("_") or "u"
+    if stripped != name:
+        stripped = stripped + "'"        # `_x` and `x` are different Python names
+    if stripped in LEAN_KEYWORDS:
+        stripped = stripped + "'"
+    return stripped
 
 
 def rat_lit(fr: Fraction) -> str:
